@@ -2,9 +2,14 @@
 //! plus independent oracle checks.  One sub-command per model slice.
 mod c06;
 mod c08;
+mod c10;
+mod c12;
+mod c17;
+mod interpose;
 mod c13;
 mod c16;
 mod c19;
+mod c20;
 mod p1;
 mod util;
 
@@ -24,6 +29,11 @@ fn dispatch(cmd: &str) -> Option<RunFn> {
 		"c16" => c16::run,
 		"c13" => c13::run,
 		"c06" => c06::run,
+		"c10" => c10::run,
+		"c12" => c12::run,
+		"c12x" => c12::run_reindex,
+		"c17" => c17::run,
+		"c20" => c20::run,
 		_ => return None,
 	})
 }
